@@ -262,7 +262,7 @@ class World:
                 m['read_fails'] = False
             scen['shutdown_in_flight'] = True
             if rng.random() < 0.6:
-                scen['shared_io'] = rng.choice([2, 3])
+                scen['shared_io'] = rng.choice([2, 3, 4, 5])       # (several polls of 0.3 s in one round take longer than shutdown waits)
                 scen.pop('pinata', None)
                 for m in mods:
                     if m.get('a2') == 'pin':
@@ -312,7 +312,8 @@ class World:
         if scen.get('other'):
             cfg['other'] = {'cls': self.Other, 'description': 'a plain module'}
         for i in range(scen.get('shared_io', 0)):
-            cfg[f'u{i}'] = {'cls': type(f'User{i}', (self.User,), {'opt': {'use': 'never'}, '__module__': __name__}), 'description': 'user of a shared communicator',
+            cfg[f'u{i}'] = {'cls': type(f'User{i}', (self.User,), {'opt': {'use': 'never', 'read_takes': 0.3 if scen.get('shutdown_in_flight') else 0},
+                                                                   '__module__': __name__}), 'description': 'user of a shared communicator',
                             'uri': 'fake://shared'}
         if scen.get('pinata'):
             cfg['pin'] = {'cls': self.Pin, 'description': 'scanner'}
